@@ -282,7 +282,7 @@ class XPathToken(Token[ta.XPathTokenType]):
                 return cast(AnyAtomicType, results[0])
 
             tk = self if self.symbol != ':' else self[1]
-            if isinstance(tk, self.registry.function_token):
+            if isinstance(tk, self.registry.function_token) and tk.sequence_types:
                 rt = tk.sequence_types[-1]
                 if rt.endswith(('*', '+')):
                     return results
